@@ -1,6 +1,7 @@
 // rapidcheck lives only in this translation unit (it is the expensive header).
 #include "common.hpp"
 #include <signal.h>
+#include <cerrno>
 #include <sys/time.h>
 #include <rapidcheck.h>
 
@@ -128,6 +129,7 @@ void runRandom(const Opt &o, Ev &ev, const std::string &sub, int maxChoices, int
         std::vector<uint32_t> v = *gen;
         if (any && --shrinkBudget < 0) return;
         armCase(choicesText(sub, v));
+        errno = 0;                 // libc state does not travel from one case to the next: a case that needs a history contains it
         Src s(v);
         std::string m = body(s, ev);
         disarmCase();
